@@ -75,6 +75,27 @@ def current_thread():
     return getattr(_tls, "cur", None)
 
 
+def _reset_process_globals():
+    """Process-global counters that leak into thread names must not depend on earlier runs."""
+    import itertools
+    try:
+        from dexsim import seams
+        if seams.futures_thread is not None:
+            seams.futures_thread.ThreadPoolExecutor._counter = itertools.count().__next__
+    except ImportError:  # pragma: no cover
+        pass
+
+
+#: functions whose lines touch shared state without a lock around the whole step: pre-empted more often
+HOT_FUNCTIONS = frozenset({
+    "_on_task_complete", "_create_result", "_decide_suspend", "should_execution_suspend", "_timer_loop", "schedule_resume",
+    "submit_task", "resubmitter", "execute", "create_checkpoint", "_enqueue", "_collect_checkpoint_batch",
+    "checkpoint_batches_forever", "_mark_orphans", "track_replay", "set", "wait", "acquire", "release", "__exit__",
+    "complete", "fail", "suspend", "suspend_with_timeout", "reset_to_pending", "run", "complete_task", "fail_task",
+    "should_complete", "get_checkpoint_result", "fetch_paginated_operations",
+})
+
+
 class DefaultPolicy:
     """Never pre-empt: keep the current thread, else lowest index."""
 
@@ -376,7 +397,7 @@ class Sim:
                 return self._line_tracer
             for t in self.threads:
                 if t.state == RUNNABLE and t is not cur:
-                    self.yield_point(cur, "line")
+                    self.yield_point(cur, "line-hot" if frame.f_code.co_name in HOT_FUNCTIONS else "line")
                     break
         return self._line_tracer
 
@@ -393,6 +414,7 @@ class Sim:
         """Run `target` as the main simulated thread. Returns the stop reason."""
         global CURRENT
         CURRENT = self
+        _reset_process_globals()
         self.main = self.spawn(name, target)
         self.start_thread(self.main)
         self._resume()
